@@ -592,18 +592,16 @@ template <class I> Result execBinom(const mpz_class& n, const mpz_class& k) {
 }
 
 static Result execStatic() {
+  // only the (n,n) overload, which does not call binomial(): a constant-evaluated call of the general overload would
+  // turn a defect of binomial() into a compile error of this harness instead of a replayable failing input
   using std::integral_constant;
   Result res;
-  auto f5 = Dune::factorial(integral_constant<int, 5>{});
-  auto b105 = Dune::binomial(integral_constant<int, 10>{}, integral_constant<int, 5>{});
   auto b77 = Dune::binomial(integral_constant<int, 7>{}, integral_constant<int, 7>{});
   auto bm = Dune::binomial(integral_constant<int, -1>{}, integral_constant<int, -1>{});
-  auto b63 = Dune::binomial(integral_constant<long, 6>{}, integral_constant<long, 3>{});
   std::ostringstream os;
-  os << decltype(f5)::value << " " << decltype(b105)::value << " " << decltype(b77)::value << " " << decltype(bm)::value << " "
-     << decltype(b63)::value;
+  os << decltype(b77)::value << " " << decltype(bm)::value;
   res.impl = os.str();
-  if (res.impl != "120 252 1 0 20") res.oracle = "FAIL integral_constant overloads give " + res.impl;
+  if (res.impl != "1 0") res.oracle = "FAIL integral_constant overload binomial(n,n) gives " + res.impl;
   return res;
 }
 
@@ -975,7 +973,7 @@ static std::string genInt(Rng& r) {
       return os.str();
     }
     case 4: os << "sign " << t << " " << (sg ? (long)r.range(-3, 3) : (long)r.range(0, 3)); return os.str();
-    case 5: return "static";
+    case 5: if (r.coin(1, 50)) return "static"; [[fallthrough]];
     default: {  // binomial
       mpz_class n, k;
       int mode = (int)r.below(10);
@@ -1136,11 +1134,18 @@ static const std::vector<std::string>& intAll(const std::string& tier) {
       if (nm < 0) break;
       mpz_class from = 2 * kk;
       if (kk < kmin && nm - from > 60) from = nm - 60;  // small kk: only the top of the range
-      for (mpz_class n = from; n <= nm + 1; ++n) {
+      for (mpz_class n = from; n <= nm + 1 && n <= typeMax(t); ++n) {
         v.push_back("binom " + t + " " + n.get_str(10) + " " + std::to_string(kk));
         if (n - kk != kk) v.push_back("binom " + t + " " + n.get_str(10) + " " + mpz_class(n - kk).get_str(10));
       }
     }
+    // extreme n with k at both ends of the row
+    for (long dn = 0; dn <= 2; ++dn)
+      for (long dk = 0; dk <= 2; ++dk) {
+        mpz_class n = typeMax(t) - dn;
+        v.push_back("binom " + t + " " + n.get_str(10) + " " + std::to_string(dk));
+        v.push_back("binom " + t + " " + n.get_str(10) + " " + mpz_class(n - dk).get_str(10));
+      }
     // small triangle incl. the arguments outside 0<=k<=n
     for (long n = sg ? -2 : 0; n <= 12; ++n)
       for (long k = sg ? -2 : 0; k <= 14; ++k) v.push_back("binom " + t + " " + std::to_string(n) + " " + std::to_string(k));
@@ -1149,13 +1154,13 @@ static const std::vector<std::string>& intAll(const std::string& tier) {
     for (long p = 0; p <= (w32 ? 33 : 65); ++p) {
       mpz_class rt = p == 0 ? mpz_class(3) : maxRoot(t, p);
       mpz_class lo = sg ? mpz_class(-rt - 1) : mpz_class(0), hi = rt + 1;
+      if (lo < -typeMax(t) - 1) lo = -typeMax(t) - 1;
+      if (hi > typeMax(t)) hi = typeMax(t);
       if (p < pmin && rt > 40) {
         for (mpz_class m = rt - 20; m <= hi; ++m) v.push_back("pow " + t + " i32 " + m.get_str(10) + " " + std::to_string(p));
         if (sg) for (mpz_class m = lo; m <= -rt + 20; ++m) v.push_back("pow " + t + " i32 " + m.get_str(10) + " " + std::to_string(p));
         for (long m = -20; m <= 20; ++m) if (sg || m >= 0) v.push_back("pow " + t + " i32 " + std::to_string(m) + " " + std::to_string(p));
       } else {
-        if (lo < -typeMax(t) - 1) lo = -typeMax(t) - 1;
-        if (hi > typeMax(t)) hi = typeMax(t);
         for (mpz_class m = lo; m <= hi; ++m) v.push_back("pow " + t + " u32 " + m.get_str(10) + " " + std::to_string(p));
       }
     }
